@@ -812,14 +812,14 @@ func posOf(b *ssa.BinOp, f *ssa.Function) token.Pos {
 }
 
 func r9_3(c *Ctx) {
-	names := c.fieldByType("sourcemap", "SourceMapper", func(t types.Type) bool {
+	names := c.fieldByTypeUsedIn("sourcemap", "SourceMapper", func(t types.Type) bool {
 		s, ok := t.Underlying().(*types.Slice)
 		if !ok {
 			return false
 		}
 		b, ok := s.Elem().Underlying().(*types.Basic)
 		return ok && b.Kind() == types.String
-	})
+	}, "(*sourcemap.SourceMapper).AddNamedMapping")
 	idx := c.fieldByType("sourcemap", "SourceMapper", func(t types.Type) bool {
 		_, ok := t.Underlying().(*types.Map)
 		return ok
@@ -1037,14 +1037,14 @@ func r9_3(c *Ctx) {
 }
 
 func r9_4(c *Ctx, E *ssa.Function) {
-	names := c.fieldByType("sourcemap", "SourceMapper", func(t types.Type) bool {
+	names := c.fieldByTypeUsedIn("sourcemap", "SourceMapper", func(t types.Type) bool {
 		s, ok := t.Underlying().(*types.Slice)
 		if !ok {
 			return false
 		}
 		b, ok := s.Elem().Underlying().(*types.Basic)
 		return ok && b.Kind() == types.String
-	})
+	}, "(*sourcemap.SourceMapper).AddNamedMapping")
 	n := 0
 	for _, f := range c.libFunctions() {
 		allInstrs(f, func(_ *ssa.BasicBlock, _ int, in ssa.Instruction) {
